@@ -53,6 +53,19 @@ class _Desugar(ast.NodeTransformer):
     def _var(self, like, tag="m"):
         return f"_ds_{tag}{next(self.n)}"
 
+    def visit_With(self, node):
+        """`with contextlib.suppress(E, ...): body` is `try: body` / `except (E, ...): pass`."""
+        self.generic_visit(node)
+        if len(node.items) == 1 and node.items[0].optional_vars is None and isinstance(node.items[0].context_expr, ast.Call):
+            c = node.items[0].context_expr
+            if (self._is_ext(c.func, "contextlib.suppress")) and c.args and not c.keywords and \
+                    not any(isinstance(a, ast.Starred) for a in c.args):
+                typ = c.args[0] if len(c.args) == 1 else ast.Tuple(elts=list(c.args), ctx=ast.Load())
+                handler = ast.ExceptHandler(type=typ, name=None, body=[ast.copy_location(ast.Pass(), node)])
+                new = ast.Try(body=node.body, handlers=[ast.copy_location(handler, node)], orelse=[], finalbody=[])
+                return self._at(new, node)
+        return node
+
     def visit_Call(self, node):
         self.generic_visit(node)
         f = node.func
